@@ -1285,6 +1285,141 @@ func RefusedDeepEqualEmpty(name string) bool {
 	return reflect.DeepEqual(&Level{Name: name}, levelEmpty)
 }
 
+// ---- a Sprintf result held in a local that only becomes a message ----
+
+func MsgLocal(name string, n int) (int, error) {
+	if n < 0 {
+		msg := fmt.Sprintf("negative count %d for %q", n, name)
+		return 0, errors.New(msg)
+	}
+	var text string
+	if name == "" {
+		text = fmt.Sprintf("no name (count %d)", n)
+	} else {
+		text = "fixed text"
+	}
+	if n > 5 {
+		return n, CodeError{Msg: text}
+	}
+	if n == 3 {
+		return n, fmt.Errorf("wrapped: %s", text)
+	}
+	return n + len(name), nil
+}
+
+// RefusedMsgMeasured: the Sprintf result is measured.
+func RefusedMsgMeasured(n int) (int, error) {
+	msg := fmt.Sprintf("count %d", n)
+	return len(msg), errors.New(msg)
+}
+
+// RefusedMsgReturned: the Sprintf result is returned as a string.
+func RefusedMsgReturned(n int) string {
+	msg := fmt.Sprintf("count %d", n)
+	return msg
+}
+
+// ---- nilable fields: a slice / map field whose nil-ness is tested (NilableFields on the type row) ----
+
+type Blob struct {
+	Name  string
+	Delta []byte
+	Meta  map[string]string
+}
+
+// parseBlob is an oracle with OutParams "v" (think json.Unmarshal): nil, empty and non-empty fields.
+func parseBlob(data string, v *Blob) error {
+	if data == "" {
+		return errors.New("no data")
+	}
+	switch {
+	case strings.HasPrefix(data, "nil"):
+		*v = Blob{Name: data}
+	case strings.HasPrefix(data, "empty"):
+		*v = Blob{Name: data, Delta: []byte{}, Meta: map[string]string{}}
+	default:
+		*v = Blob{Name: data, Delta: []byte{1, 2}, Meta: map[string]string{"k": data}}
+	}
+	return nil
+}
+
+// UseBlob tells nil from empty on the two nilable fields, reads them as slice / map, copies and resets them.
+func UseBlob(data string) (string, int, int, bool, bool, error) {
+	var b Blob
+	if len(data)%3 == 1 {
+		data = "nil" + data
+	} else if len(data)%3 == 2 {
+		data = "empty" + data
+	}
+	if err := parseBlob(data, &b); err != nil {
+		return "", 0, 0, false, false, err
+	}
+	kind := "both"
+	if b.Delta == nil && b.Meta == nil {
+		kind = "incomplete"
+	} else if b.Delta != nil && len(b.Delta) == 0 {
+		kind = "empty delta"
+	}
+	c := Blob{Name: "copy", Delta: b.Delta}
+	c.Meta = b.Meta
+	if len(c.Meta) > 0 {
+		c.Meta = nil
+		c.Delta = []byte("x" + data)
+	}
+	d := Blob{Meta: map[string]string{}}
+	return kind, len(b.Delta) + len(c.Delta), len(b.Meta), c.Meta == nil, d.Meta != nil && d.Delta == nil, nil
+}
+
+// RefusedNilableUnknown: a value whose nil-ness is not known goes into a nilable field.
+func RefusedNilableUnknown(raw []byte) bool {
+	b := Blob{}
+	b.Delta = raw
+	return b.Delta == nil
+}
+
+// ---- an interface type that only ever holds one pointer type (row option Concrete): typed nil kept exactly ----
+
+type Handle interface{ Path() string }
+
+type FileHandle struct{ P string }
+
+func (f *FileHandle) Path() string { return f.P }
+
+func openFile(p string) (*FileHandle, error) {
+	if p == "" {
+		return nil, errors.New("no path")
+	}
+	return &FileHandle{P: p}, nil
+}
+
+// OpenHandle returns openFile's results as (Handle, error): a nil *FileHandle becomes a NON-nil Handle.
+func OpenHandle(p string) (Handle, error) {
+	if p == "x" {
+		return nil, errors.New("x is reserved")
+	}
+	return openFile(p)
+}
+
+func HandleNil(p string) (bool, bool, bool) {
+	h, err := OpenHandle(p)
+	var h2 Handle
+	if err == nil {
+		h2 = &FileHandle{P: p + "!"}
+	}
+	var f *FileHandle
+	var h3 Handle = f
+	return h == nil, h2 == nil, h3 == nil
+}
+
+// RefusedHandleCall: a method call through the interface value (it may hold a nil pointer).
+func RefusedHandleCall(p string) string {
+	h, _ := OpenHandle(p)
+	if h == nil {
+		return ""
+	}
+	return h.Path()
+}
+
 // newRec is an oracle with FreshResults: the record it returns may be nil and is owned by the caller.
 func newRec(s string) (*Rec, error) {
 	if s == "" {
@@ -1454,7 +1589,7 @@ var Funcs = map[string]any{
 	"ArrayRange": ArrayRange, "TimeZero": TimeZero, "JoinCollapse": JoinCollapse,
 	"InOutPtr": InOutPtr, "Variadic": Variadic,
 	"ErrKind": ErrKind, "AnySwitch": AnySwitch, "Bytes": Bytes, "Bits": Bits, "UseHolder": UseHolder,
-	"UsePages": UsePages, "LocalIdentity": LocalIdentity, "UseStores": UseStores, "IsSkip": IsSkip, "LinkedElem": LinkedElem, "TypeAlias": TypeAlias, "StoreOf": StoreOf, "UseFill": UseFill, "Effects": Effects, "EffectPages": EffectPages, "EffectTail": EffectTail, "OwnedPtr": OwnedPtr, "OwnedPtrPanics": OwnedPtrPanics,
+	"UsePages": UsePages, "LocalIdentity": LocalIdentity, "UseStores": UseStores, "HandleNil": HandleNil, "UseBlob": UseBlob, "MsgLocal": MsgLocal, "IsSkip": IsSkip, "LinkedElem": LinkedElem, "TypeAlias": TypeAlias, "StoreOf": StoreOf, "UseFill": UseFill, "Effects": Effects, "EffectPages": EffectPages, "EffectTail": EffectTail, "OwnedPtr": OwnedPtr, "OwnedPtrPanics": OwnedPtrPanics,
 	"UseFinder": UseFinder, "UseFinderPanics": UseFinderPanics,
 }
 
